@@ -61,6 +61,16 @@ def main():
         # shapes, and must leave these results as they are while doing so
         raw.append(numpy.ma.array(numpy.ma.getdata(raw[0]).reshape((1,) + tuple(shape)).copy(), mask=numpy.ma.getmaskarray(raw[0]).reshape((1,) + tuple(shape)).copy()))
         fz.append(numpy.ma.array(numpy.ma.getdata(fz[0]).reshape(tuple(shape) + (1,)).copy(), mask=numpy.ma.getmaskarray(fz[0]).reshape(tuple(shape) + (1,)).copy()))
+        # results that hold NaN in a cell that is not missing (a user library's command, a division 0/0 done outside numpy.ma):
+        # not a fuzzy value and not a number, but the cell is the producer's and stays as it is
+        for src, lst in ((fz[1], fz), (raw[1], raw)):
+            d = numpy.ma.getdata(src).astype(float).copy()
+            m = numpy.ma.getmaskarray(src).copy()
+            free = [i for i, mm in enumerate(m.reshape(-1)) if not mm]
+            if free:
+                d.reshape(-1)[rnd.choice(free)] = float("nan")
+                lst.append(numpy.ma.array(d, mask=m) if m.any() or rnd.random() < 0.6 else numpy.ma.array(d))    # (never unmask a hidden payload)
+                dist["nan_results_in_pool"] = dist.get("nan_results_in_pool", 0) + 1
         pool = [(a, False) for a in raw] + [(a, True) for a in fz]
         snaps = [snap(a) for a, _ in pool]
         trace = []
@@ -120,6 +130,9 @@ def main():
                             p["NumberToConsider"] = rnd.randint(1, k)
                         dist["single_input_nary"] += int(k == 1)
                     idxs = [rnd.choice(cands) for _ in range(k)]
+                    nanc = [i for i in cands if i < len(pool) and pool[i][0].dtype.kind == "f" and numpy.isnan(numpy.ma.getdata(pool[i][0])).any()]
+                    if nanc and rnd.random() < 0.3:
+                        idxs[0] = rnd.choice(nanc)
                     ins = [pool[i][0] for i in idxs]
                     mod = "fuzzy" if cc.CLASSES[cname].__module__.endswith("fuzzy") else "basic"
                     label = "%s:%s" % (mod, cname)
